@@ -471,9 +471,11 @@ func (g *graph) addBranch(startNode string, branch *GraphBranch, skipData bool) 
 	branch.idx = len(g.handlerPreBranch[startNode])
 
 	// the condition tells the type of a passthrough node only if nothing else has told it yet;
-	// an already inferred type is validated against the condition below, not overwritten
+	// an already inferred type is validated against the condition below, not overwritten.
+	// With an output key the condition reads the map the node wraps its value in: it tells
+	// nothing about the value itself, whose type comes from the node's predecessor.
 	if startNode != START && g.nodes[startNode].executorMeta.component == ComponentOfPassthrough &&
-		g.nodes[startNode].cr.inputType == nil {
+		g.nodes[startNode].cr.inputType == nil && len(g.nodes[startNode].nodeInfo.outputKey) == 0 {
 		g.nodes[startNode].cr.inputType = branch.inputType
 		g.nodes[startNode].cr.outputType = branch.inputType
 		g.nodes[startNode].cr.genericHelper = branch.genericHelper.forPredecessorPassthrough()
